@@ -734,3 +734,22 @@ Proof.
   cbn [d_exh d_nt] in *. destruct E as [A B]. split; [exact A|].
   intros NF. apply B. intros e I. apply (NF e). right. apply in_or_app. left. exact I.
 Qed.
+
+(* ------------------------------------------------------------------ locals are forwarded with every update_locals *)
+(* update_locals reaches every node except the subtree below callback_on_new_best: lists forward to every child, EveryNTimesteps and
+   EvalCallback (callback_after_eval) to their child; a recorder then holds the stamp of that very env step *)
+Theorem ul_forwarding pb s d :
+  (forall b stop log, dispatchp pb (UL s d) (Rec b stop log) = (Rec (base_ul s d b) stop log, true)) /\
+  (forall b l, fst (dispatchp pb (UL s d) (CList b l)) = CList (base_ul s d b) (map (fun c => fst (dispatchp pb (UL s d) c)) l)) /\
+  (forall b n last fired ch, fst (dispatchp pb (UL s d) (EveryN b n last fired ch)) = EveryN (base_ul s d b) n last fired (fst (dispatchp pb (UL s d) ch))) /\
+  (forall b f best evals dn ob af,
+     fst (dispatchp pb (UL s d) (EvalC b f best evals dn ob af)) = EvalC (base_ul s d b) f best evals dn ob (fst (dispatchp pb (UL s d) af))).
+Proof.
+  repeat split; intros; try reflexivity. rewrite dispatchp_clist. reflexivity.
+Qed.
+
+(* hence a recorder that is delivered update_locals for env step s and then the step event logs stamp s *)
+Theorem step_after_ul_sees_that_step pb s d nt b stop log :
+  let r := fst (dispatchp pb (Step nt) (fst (dispatchp pb (UL s d) (Rec b stop log)))) in
+  exists b', r = Rec b' stop (log ++ [mkE 2 (b_calls b + 1) nt s]).
+Proof. cbn. eexists. reflexivity. Qed.
